@@ -20,7 +20,7 @@ type Engine struct {
 	db            *SpecDB
 	fnByName      map[string]*ssa.Function
 	modsets       map[*ssa.Function]*ModSet
-	freshCache    map[*ssa.Function]map[ssa.Value]bool
+	freshCache    map[*ssa.Function]map[ssa.Value]int
 	implCache     map[string][]*ssa.Function
 	repoTypes     []types.Type
 	tags          map[string]int64
@@ -35,6 +35,7 @@ type Engine struct {
 	errGlobals    []string
 	typeByName    map[string]types.Type
 	loadSeconds   float64
+	boxKeys       map[*Term]string
 }
 
 func (e *Engine) specError(fn string, c *Clause, err error) {
@@ -124,9 +125,9 @@ func loadEngine(repo string, specDir string) (*Engine, error) {
 	prog, _ := ssautil.AllPackages(pkgs, ssa.NaiveForm|ssa.GlobalDebug|ssa.InstantiateGenerics)
 	prog.Build()
 	e := &Engine{repo: repo, prog: prog, pkgs: pkgs, db: newSpecDB(), fnByName: map[string]*ssa.Function{},
-		modsets: map[*ssa.Function]*ModSet{}, freshCache: map[*ssa.Function]map[ssa.Value]bool{}, implCache: map[string][]*ssa.Function{},
+		modsets: map[*ssa.Function]*ModSet{}, freshCache: map[*ssa.Function]map[ssa.Value]int{}, implCache: map[string][]*ssa.Function{},
 		tags: map[string]int64{}, tagTypes: map[int64]types.Type{}, boxTypes: map[string]types.Type{}, closureByTerm: map[*Term]*Closure{},
-		inlineAll: map[string]bool{}, pkgByName: map[string]*types.Package{}, globalsSeen: map[string]bool{}, typeByName: map[string]types.Type{}}
+		inlineAll: map[string]bool{}, boxKeys: map[*Term]string{}, pkgByName: map[string]*types.Package{}, globalsSeen: map[string]bool{}, typeByName: map[string]types.Type{}}
 	for fn := range ssautil.AllFunctions(prog) {
 		e.fnByName[shortName(fn)] = fn
 	}
@@ -163,6 +164,7 @@ func loadEngine(repo string, specDir string) (*Engine, error) {
 			}
 		}
 	})
+	globalBoxKeys = e.boxKeys
 	sort.Slice(e.repoTypes, func(i, j int) bool { return e.repoTypes[i].String() < e.repoTypes[j].String() })
 	// contracts: guarded comment files in the repo + assumed specs
 	if err := e.db.loadDir(repo+"/internal", "verif_contracts*.go", false); err != nil {
@@ -264,6 +266,9 @@ func (e *Engine) verifyFunction(fn *ssa.Function, safety bool) (fr *Frame, err e
 		}
 		prev = append(prev, v)
 		bindings = append(bindings, v)
+		if bk := staticBoxKey(fv); bk != "" {
+			e.boxKeys[v] = bk
+		}
 	}
 	f.args = args
 	for i, p := range fn.Params {
@@ -301,6 +306,49 @@ func (e *Engine) verifyFunction(fn *ssa.Function, safety bool) (fr *Frame, err e
 			}
 			f.oblige(exit, "post", en.Label, en.Props, en.Tags, t, fn.Pos(), en.Text)
 		}
+		// parallel-append discipline (parelem): the instance only appends, and what it appends satisfies the predicate
+		for _, pe := range c.ParElem {
+			var newv, oldv SV
+			ok1 := false
+			for _, fv := range fn.FreeVars {
+				if fv.Name() != pe.Callee {
+					continue
+				}
+				et := derefType(fv.Type())
+				if r, ok := f.vals[fv].(*Term); ok && et != nil {
+					a := refAddr(r, et)
+					newv = SV{t: exit.load(a), typ: et}
+					oldv = SV{t: f.entry.load(a), typ: et}
+					ok1 = true
+				}
+			}
+			if !ok1 {
+				e.specError(f.name, pe, fmt.Errorf("captured slice %s not found", pe.Callee))
+				continue
+			}
+			sl, isSl := newv.typ.Underlying().(*types.Slice)
+			if !isSl {
+				e.specError(f.name, pe, fmt.Errorf("%s is not a slice", pe.Callee))
+				continue
+			}
+			bi, i := freshBVar("i", sortInt)
+			n2 := *env
+			n2.names = map[string]SV{}
+			for k, v := range env.names {
+				n2.names[k] = v
+			}
+			n2.names[pe.Label] = SV{t: tSelect(slArr(newv.t), i), typ: sl.Elem()}
+			pred, err := n2.formula(pe.Expr)
+			if err != nil {
+				e.specError(f.name, pe, err)
+				continue
+			}
+			goal := tAnd(tGe(slLen(newv.t), slLen(oldv.t)),
+				mkQuant("forall", []BVar{bi}, tAnd(
+					tImp(tAnd(tLe(tInt(0), i), tLt(i, slLen(oldv.t))), tEq(tSelect(slArr(newv.t), i), tSelect(slArr(oldv.t), i))),
+					tImp(tAnd(tLe(slLen(oldv.t), i), tLt(i, slLen(newv.t))), pred))))
+			f.oblige(exit, "post", "parelem."+pe.Callee, sp0(f), nil, goal, fn.Pos(), pe.Text)
+		}
 		co := &Obligation{ID: f.name + "#cover:return", Fn: f.name, Kind: "cover", Label: "return", Goal: tNot(exit.pc), PC: tTrue(), ctx: f, nHyps: len(f.hyps), Cover: true, Text: "some return is reachable"}
 		co.Props = f.supportProps()
 		f.obls = append(f.obls, co)
@@ -332,7 +380,7 @@ func (e *Engine) verifyFunction(fn *ssa.Function, safety bool) (fr *Frame, err e
 		e.contractMods(&Contract{Modifies: c.Modifies, Havocs: c.Havocs, HasMod: true}, nil, decl)
 		var bad []string
 		for k, v := range inf.heaps {
-			if v == modAny && decl.heaps[k] < modAny {
+			if v >= modPFresh && decl.heaps[k] < modAny {
 				bad = append(bad, k)
 			}
 		}
@@ -372,3 +420,5 @@ func (e *Engine) lemmaObligations() []*Obligation {
 }
 
 var _ = token.NoPos
+
+func sp0(f *Frame) []string { return f.supportProps() }
